@@ -483,6 +483,11 @@ func (v *Visitor) Visit(s *df.AnalyzerState, source df.NodeWithTrace) {
 
 			closureNode := graphNode.ParentNode()
 
+			if closureNode.ClosureSummary == nil {
+				// the closure is created but never called: it has no summary and nothing can flow through it
+				break
+			}
+
 			if !closureNode.ClosureSummary.Constructed {
 				if ignoreNonSummarized {
 					break
@@ -648,7 +653,12 @@ func (v *Visitor) Visit(s *df.AnalyzerState, source df.NodeWithTrace) {
 			destClosureSummary := graphNode.DestClosure()
 			if !ignoreNonSummarized {
 				if destClosureSummary == nil {
-					destClosureSummary = df.BuildSummary(s, graphNode.DestInfo().MakeClosure.Fn.(*ssa.Function))
+					closureFn := graphNode.DestInfo().MakeClosure.Fn.(*ssa.Function)
+					if s.FlowGraph.Summaries[closureFn] == nil && !s.IsReachableFunction(closureFn) {
+						// the closure is created but never called: it has no summary and nothing can flow through it
+						break
+					}
+					destClosureSummary = df.BuildSummary(s, closureFn)
 					graphNode.SetDestClosure(destClosureSummary)
 					s.FlowGraph.Sync()
 				}
